@@ -40,8 +40,10 @@ PlainPath(s) == [j \in 1..Len(s.path) |-> s.path[j].s]
 StmtText(s, i) ==
   LET dot == IF i % 2 = 0 /\ ~UNIFORM THEN <<32, 46, 32>> ELSE <<46>>
       pt == PathText(PlainPath(s), [j \in 1..Len(s.path) |-> Style(i, j)], dot, 1)
-  IN CASE s.kind = "std" -> <<91>> \o pt \o <<93>>
-       [] s.kind = "aot" -> <<91, 91>> \o pt \o <<93, 93>>
+      \* every third header with blanks inside its brackets (they end up in the leaf decor of its last key)
+      pad == IF ~UNIFORM /\ i % 3 = 1 THEN <<32>> ELSE <<>>
+  IN CASE s.kind = "std" -> <<91>> \o pad \o pt \o pad \o <<93>>
+       [] s.kind = "aot" -> <<91, 91>> \o pad \o pt \o pad \o <<93, 93>>
        [] s.kind = "kv" -> pt \o <<32, 61, 32>> \o ValueTextD(s.val)
 RECURSIVE DocText(_, _)
 DocText(h, i) == IF i > Len(h) THEN <<>> ELSE StmtText(h[i], i) \o <<10>> \o DocText(h, i + 1)
